@@ -533,6 +533,9 @@ func (qr *QRCode) EncodeToBitmap() (*bitmap.Image, error) {
 	if format < 0 {
 		return nil, fmt.Errorf("microqr: invalid version-level pair: %d-%s", qr.Version, qr.Level)
 	}
+	if qr.Mask != MaskAuto && (qr.Mask < 0 || qr.Mask >= maskMax) {
+		return nil, fmt.Errorf("microqr: invalid mask: %d", qr.Mask)
+	}
 
 	var buf bitstream.Buffer
 	if err := qr.encodeSegments(&buf); err != nil {
